@@ -191,6 +191,12 @@ def two_models_part(ctx, count):
 
 
 def run(ctx: C.Ctx):
+    from .. import shapes_static, translate_classification
+    shapes_static.run_with_translation(ctx, translate_classification, "Classification", "classification-pipeline", lambda: _run(ctx),
+                                       "regenerated from SSPOC.predict / fit / update_sensors: dispatch = Sspoc.predictKind, training data, solver calls, refit block")
+
+
+def _run(ctx: C.Ctx):
     relabel_part(ctx, ctx.scale(30, 300))
     two_models_part(ctx, ctx.scale(20, 200))
     rng = ctx.rng
